@@ -474,7 +474,12 @@ def check_flat_identity(np, log, spec, rec, kindkey):
                 log.count("probe.nan_weight_proposal_rejected", int(np.sum(np.isnan(w))))
                 fin = ~np.isnan(w)
                 w = np.where(fin, w, 0.0)
-            if not (np.all(w <= 1.0 + 1e-12) and np.all(w >= 0.0)):
+            # the property bounds the weight from ABOVE (a weight above one cannot be unweighted).  Below zero only
+            # rounding dust is tolerated (observed: -2.6e-64 for a massless daughter at a boundary draw): such a
+            # proposal is simply never accepted; a weight that is really negative would be a wrong break-up momentum
+            if np.any((w < 0.0) & (w >= -1e-30)):
+                log.count("probe.negative_rounding_dust_weight", int(np.sum((w < 0.0) & (w >= -1e-30))))
+            if not (np.all(w <= 1.0 + 1e-12) and np.all(w >= -1e-30)):
                 sfx = "|after-cal_max_weight" if (spec.get("variant") == "cal_max" or spec.get("_calmax_completed")) else ""
                 log.fail("weight-bound", "%s|weight-bound%s" % (kindkey, sfx), "acceptance weight outside [0,1]: max %.17g min %.3g (m0=%r, masses=%r)%s" % (float(np.max(w)), float(np.min(w)), m0, mm, "; the bound had been tightened by cal_max_weight()" if sfx else ""))
                 return False
